@@ -35,6 +35,7 @@ fn props() -> Vec<PropDef> {
         p!("C02", "fault_enumeration", c02),
         p!("C03", "model_checking", c03),
         p!("C07", "fault_enumeration", c07),
+        p!("C08", "exploration", c08),
         p!("C10", "fault_enumeration", c10),
     ]
 }
